@@ -33,5 +33,10 @@ SPEC = {
 }
 
 MUTATIONS = """
-(filled in after the dry-runs)
+Dry-runs on a scratch copy (VERIF_REPO=/var/tmp/mC16, ./check C17 quick), all compile:
+ MB  objects.go  pyDict.Freeze returns pyFrozenDict{pyDict: d} (unfrozen values)   RED  class freeze-dict-keeps-unfrozen-values (new), concrete package set; 20 model disagreements
+ MC  interpreter.go scope.Freeze skips pyList values                               RED  class export-not-frozen (new), concrete package set
+ MD  objects.go  pyFrozenList.IndexAssign delegates to the inner list              see batch log (model says "list is immutable": correspondence breaks)
+ ME  interpreter.go Subinclude: rename local `locals`                              GREEN (harmless)
+ MA  objects.go  pyList.Freeze returns the frozen copy (the fix)                   RED as designed: C17_witness_freeze_keeps_elements / C17_freeze_today_not_deep no longer check
 """
